@@ -9,7 +9,8 @@ Local Open Scope Z_scope.
    open the session before the handler, run the fee step inside it, commit only under
    ok (&& feeOk) and discard otherwise — as [Abci.deliver] assumes.  Regenerated on every run. *)
 Theorem C06_fact_deliverer : wrapper_ok deliverer = true /\ deliverer_guard = "ok_and_fee"%string
-                             /\ deliverer_no_return_inside = true.
+                             /\ deliverer_no_return_inside = true
+                             /\ deliverer_validate_guards_handler = true.
 Proof. vm_compute. auto. Qed.
 
 Theorem C06_fact_internal_loops :
@@ -42,6 +43,26 @@ Theorem C06_block_without_failed : forall txs s, sess s = None -> gas s = None -
   run_block s (drop_failed txs res) = (only_ok res, s').
 Proof. exact block_without_failed. Qed.
 Print Assumptions C06_block_without_failed.
+
+(* the same three statements for the deliverer as it is now written: BeginTxSession, then
+   handler.Validate (an arbitrary program as well); a rejection discards the session and returns
+   before the handler and the fee step *)
+Theorem C06_failed_is_noop_validating : forall s v h fee, sess s = None ->
+  (deliver_v s v h fee).1 = false -> exists g, (deliver_v s v h fee).2 = with_gas s g.
+Proof. exact failed_deliver_v_is_noop. Qed.
+Print Assumptions C06_failed_is_noop_validating.
+
+Theorem C06_deliver_frame_validating : forall s v h fee, sess s = None ->
+  let s' := (deliver_v s v h fee).2 in
+  sess s' = None /\ tree s' = tree s /\ saved s' = saved s /\ version s' = version s /\
+  wlog s' = wlog s.
+Proof. exact deliver_v_frame. Qed.
+
+Theorem C06_block_without_failed_validating : forall txs s, sess s = None -> gas s = None ->
+  let '(res, s') := run_block_v s txs in
+  run_block_v s (drop_failed_v txs res) = (only_ok res, s').
+Proof. exact block_v_without_failed. Qed.
+Print Assumptions C06_block_without_failed_validating.
 
 (* non-vacuity: a handler that writes, deletes, reads its own write and then fails *)
 Example C06_nonvacuous :
